@@ -7,6 +7,10 @@ Scope: see join_blocks() - every pair of key-row sequences of the stated sizes o
 key-tuple pools, int / str / bool / date keys, 0-2 payload columns with unique markers per row,
 keys given by name, by the table's own column Vector and by external Vectors, bare or in a list,
 expect='many_to_many'.  Zero-row sides included.  The case stream does not depend on hash order.
+The '*-hashcollide' blocks use int keys that DIFFER but have EQUAL Python hashes (-1 / -2 and
+0 / 2**61-1), alone and as components of composite keys: only key equality makes a pair (an
+implementation that buckets by hash value returns extra rows there; failure class suffix
+':hash-colliding-keys').
 """
 from relational_common import *  # noqa
 
@@ -33,7 +37,7 @@ def evaluate(case):
     except Exception as e:
         return [Fail(f'{PID}:{op}:raises:{type(e).__name__}', f'{descr}: raised {e!r}', s.want_inner(), repr(e),
                      f'{PID}:{op}:post')]
-    check_join_output(PID, op, res, s.want_inner(), s.names(), fails, descr)
+    check_join_output(PID, op, res, s.want_inner(), s.names(), fails, descr, tag=hc_tag(case))
     if s.snapshot() != before:
         fails.append(Fail(f'{PID}:{op}:input-modified', f'{descr}: an operand changed', before, s.snapshot()))
     return fails
